@@ -280,14 +280,21 @@ func (f *frame) resolveName(name string) (SV, bool) {
 					pos = i
 				}
 			}
-			for i := pos - 1; i >= 0; i-- {
-				if d, ok := blk.Instrs[i].(*ssa.DebugRef); ok && !d.IsAddr {
-					if id, ok := d.Expr.(*ast.Ident); ok && id.Name == name {
-						if sv, ok := f.vals[d.X]; ok {
-							return sv, true
-						}
-						if c, ok := d.X.(*ssa.Const); ok {
-							return f.enc.constTerm(c), true
+			// this block, then its dominators (the definition reaching the call along every path)
+			for b := blk; b != nil; b = b.Idom() {
+				start := len(b.Instrs) - 1
+				if b == blk {
+					start = pos - 1
+				}
+				for i := start; i >= 0; i-- {
+					if d, ok := b.Instrs[i].(*ssa.DebugRef); ok && !d.IsAddr {
+						if id, ok := d.Expr.(*ast.Ident); ok && id.Name == name {
+							if sv, ok := f.vals[d.X]; ok {
+								return sv, true
+							}
+							if c, ok := d.X.(*ssa.Const); ok {
+								return f.enc.constTerm(c), true
+							}
 						}
 					}
 				}
